@@ -300,11 +300,12 @@ class SpecMixin(object):
     fail_at = None
     if isinstance(seq, VRef) and self.oid_of(seq) is not None:
       fail_at = b.pyheap.get((self.oid_of(seq), '$fail_at'))
+      fail_exc = b.pyheap.get((self.oid_of(seq), '$fail_exc'), 'Exception')
     if fail_at is not None:
       f = b.fork()
       f.assume(i == fail_at.t)
       if self.feasible(f):
-        out.append((f, ('raise', self.make_exception(f, 'Exception', exact=False))))
+        out.append((f, ('raise', self.make_exception(f, fail_exc, exact=False))))
       b.assume(i != fail_at.t)
     if self.feasible(b):
       for s, c in self.assign(b, stmt.target, elem_of(b, i)):
@@ -328,7 +329,7 @@ class SpecMixin(object):
       f = e.fork()
       f.assume(fail_at.t == n)       # the producer may also fail after its last chunk
       if self.feasible(f):
-        out.append((f, ('raise', self.make_exception(f, 'Exception', exact=False))))
+        out.append((f, ('raise', self.make_exception(f, fail_exc, exact=False))))
       e.assume(fail_at.t != n)
     if self.feasible(e):
       out.extend(self.exec_block(e, stmt.orelse) if stmt.orelse else [(e, None)])
